@@ -11,7 +11,7 @@ def run(ctx):
     binp = c01.run_search(ctx, "c02")
     if not binp:
         return
-    c01.word_leg(ctx, binp, 1000 if ctx.tier == "quick" else 10000,
+    c01.word_leg(ctx, binp, 300 if ctx.tier == "quick" else 10000,
                  "code:Printer/Parser on fragment words vs Syntax/Word.v (print_word, lex_word, norm_word; vm_compute in kernel)")
     c01.rerun_witnesses(ctx, binp)
     ctx.assumptions += [
